@@ -56,7 +56,7 @@ def obligations(tier):
     nops = 4 if tier == "quick" else 6
     for d, nm in [([], "sched_config"), (["POOLCFG"], "pool_config")]:
         o.append(Obl("config_%s" % nm, "C20/config.c", "ABT_%s_create/set/get/delete/free: every sequence of %d typed operations on 3 colliding keys (5,-3,13) vs ghost map: value bits, type, absence, handle reset, everything freed once" % (nm, nops),
-                     defs=d + ["NOPS=%d" % nops], unwind=nops + 5, backend="cadical", encodes=["ABT_%s_set" % nm, "ABT_%s_get" % nm, "ABT_%s_free" % nm, "ABTU_hashtable_*"],
+                     defs=d + ["NOPS=%d" % nops], unwind=nops + 5, object_bits=11, backend="cadical", encodes=["ABT_%s_set" % nm, "ABT_%s_get" % nm, "ABT_%s_free" % nm, "ABTU_hashtable_*"],
                      bounds="%d operations, 3 keys in one bucket" % nops, symbolic="operation kinds, key choice, value types, value bits", timeout=600 if tier == "thorough" else 150))
     o.append(Obl("env_init", "C20/env.c", "real ABTD_env_init with every ABT_* variable present or absent (symbolic per lookup), the ABTU_ato* family returning an error or ANY value of its type, keyword strings of 16 symbolic bytes: every numeric setting ends inside its documented range and rounding (powers of two, cache-line / bucket multiples, non-zero sizes), no wrap-around, no division by zero",
                  unwind=130, unwindset=["strcasecmp.0:17"], object_bits=10, backend="cadical",
